@@ -50,20 +50,30 @@ func (e *Exec) supportSweep(label string, evars []*smt.Term, w int) {
 	for _, c := range e.pc {
 		walk(c)
 	}
+	affine := true
 	for _, c := range flat {
 		lb := smt.LinBool(c)
 		if lb == nil {
-			e.unsupported("support sweep: path condition conjunct is not GF(2)-affine (op %d)", c.Op)
+			affine = false
+			break
 		}
 		q := eqn{c: !lb.C} // LinBool truth bit b = C xor atoms; conjunct holds iff b = 1 iff xor(atoms) = !C
 		for _, a := range lb.Atoms {
 			vi, ok := index[a.T]
 			if !ok {
-				e.unsupported("support sweep: path condition depends on %s, not only on the error symbols", a.T.Name)
+				affine = false
+				break
 			}
 			q.atoms = append(q.atoms, [2]int{vi, a.Bit})
 		}
 		eqs = append(eqs, q)
+	}
+	if !affine {
+		// The acceptance condition is not a GF(2)-affine system in the error symbols alone, so
+		// neither the cancellation of the codeword nor the shift argument is available: fall back
+		// to plain solver queries over ALL supports (not only those containing the last position).
+		e.generalSweep(label, vars, w)
+		return
 	}
 	if len(eqs) == 0 {
 		e.unsupported("support sweep: empty path condition")
@@ -215,4 +225,139 @@ func minInt(a, b int) int {
 		return a
 	}
 	return b
+}
+
+// generalSweep: one ordinary SMT query per support (any positions) against the full path condition.
+func (e *Exec) generalSweep(label string, vars []*smt.Term, w int) {
+	n := len(vars)
+	limit := e.Cfg.Params["maxgeneralsupports"]
+	if limit == 0 {
+		limit = 150000
+	}
+	// largest weight whose support count fits the budget
+	count := func(k int) int {
+		c := 1
+		for i := 0; i < k; i++ {
+			c = c * (n - i) / (i + 1)
+			if c > 1<<30 {
+				return 1 << 30
+			}
+		}
+		return c
+	}
+	wk := w
+	for wk > 1 && count(wk) > limit {
+		wk--
+	}
+	var supports [][]int
+	var rec func(start int, cur []int)
+	rec = func(start int, cur []int) {
+		if len(cur) == wk {
+			supports = append(supports, append([]int{}, cur...))
+			return
+		}
+		for i := start; i < n; i++ {
+			rec(i+1, append(cur, i))
+		}
+	}
+	rec(0, nil)
+	base, _ := e.script().Render()
+	bits := vars[0].Sort.W
+	zero := "#b" + strings.Repeat("0", bits)
+	qn := func(i int) string { return "|" + strings.ReplaceAll(vars[i].Name, "|", "!") + "|" }
+	// make sure every error variable is declared even if the path condition dropped it
+	var decl strings.Builder
+	for i := range vars {
+		if !strings.Contains(base, "(declare-const "+qn(i)+" ") {
+			fmt.Fprintf(&decl, "(declare-const %s (_ BitVec %d))\n", qn(i), bits)
+		}
+	}
+	workers := e.Cfg.Workers
+	if workers < 1 {
+		workers = 1
+	}
+	var next int64 = -1
+	var mu sync.Mutex
+	var nUnsat, nUnknown, solverMs int64
+	type hit struct {
+		s     []int
+		model map[string]string
+	}
+	var hits []hit
+	var wg sync.WaitGroup
+	for wkr := 0; wkr < workers; wkr++ {
+		wg.Add(1)
+		go func() {
+			defer wg.Done()
+			sv := smt.NewSolver(e.Cfg.Backend)
+			defer sv.Close()
+			for {
+				k := int(atomic.AddInt64(&next, 1))
+				if k >= len(supports) {
+					return
+				}
+				S := supports[k]
+				in := map[int]bool{}
+				for _, j := range S {
+					in[j] = true
+				}
+				var sb strings.Builder
+				sb.WriteString(decl.String())
+				sb.WriteString(base)
+				var nz, get []string
+				for j := 0; j < n; j++ {
+					if in[j] {
+						nz = append(nz, fmt.Sprintf("(not (= %s %s))", qn(j), zero))
+						get = append(get, qn(j))
+					} else {
+						fmt.Fprintf(&sb, "(assert (= %s %s))\n", qn(j), zero)
+					}
+				}
+				fmt.Fprintf(&sb, "(assert (or %s))\n", strings.Join(nz, " "))
+				ans := sv.CheckRaw(sb.String(), get, e.Cfg.TimeoutMs)
+				atomic.AddInt64(&solverMs, ans.Millis)
+				switch ans.Res {
+				case smt.Unsat:
+					atomic.AddInt64(&nUnsat, 1)
+				case smt.Sat:
+					m := map[string]string{}
+					for _, j := range S {
+						if b, ok := smt.ParseValue(ans.Model[qn(j)]); ok {
+							m[vars[j].Name] = b.String()
+						}
+					}
+					mu.Lock()
+					hits = append(hits, hit{S, m})
+					mu.Unlock()
+				default:
+					atomic.AddInt64(&nUnknown, 1)
+				}
+			}
+		}()
+	}
+	wg.Wait()
+	e.SweepSupports += len(supports)
+	e.SweepMs += solverMs
+	ob := Obligation{Label: label, Harness: e.Cfg.Name, Kind: "assert", Where: e.where(), Millis: solverMs,
+		Note: fmt.Sprintf("non-affine acceptance condition: general sweep over all %d supports of size %d (requested weight %d) in %d positions; unsat=%d unknown=%d", len(supports), wk, w, n, nUnsat, nUnknown)}
+	switch {
+	case len(hits) > 0:
+		sort.Slice(hits, func(i, j int) bool { return fmt.Sprint(hits[i].s) < fmt.Sprint(hits[j].s) })
+		for _, h := range hits[:minInt(len(hits), 3)] {
+			o := ob
+			o.Verdict = "sat"
+			o.Model = h.model
+			o.Trace = append([]Decision(nil), e.trace...)
+			e.obls = append(e.obls, o)
+		}
+	case nUnknown > 0 || wk < w:
+		ob.Verdict = "unknown"
+		if wk < w {
+			ob.Note += "; weight reduced to fit the query budget"
+		}
+		e.obls = append(e.obls, ob)
+	default:
+		ob.Verdict = "unsat"
+		e.obls = append(e.obls, ob)
+	}
 }
